@@ -35,7 +35,8 @@ class DataSim(Sim):
     PROBES = ["reiteration_after_full_epoch", "reiteration_after_abandon", "len_during_iteration", "getitem_during_iteration", "transform_none",
               "transform_tagging", "transform_raises", "n_smaller_than_batch", "n_not_multiple_of_batch", "split_shuffle_real_rng",
               "split_shuffle_stub_perm", "split_no_shuffle", "split_with_validation", "one_hot", "exhausted_polled_again", "three_epochs", "next_interrupted_then_new_epoch",
-              "loader_over_non_contiguous_array", "earlier_batches_held_while_fetching", "one_hot_small_ints", "one_hot_strings", "one_hot_floats", "one_hot_bools", "split_beyond_32768_samples"]
+              "loader_over_non_contiguous_array", "earlier_batches_held_while_fetching", "one_hot_small_ints", "one_hot_strings", "one_hot_floats", "one_hot_bools", "split_beyond_32768_samples",
+              "loader_with_more_than_1024_batches", "split_dataset_kind_f8", "split_dataset_kind_list", "split_dataset_kind_u1"]
     RULE = ("one run = 1-2 loaders and a seeded interleaving of iter/next/abandon/restart/full-epoch/len/index events plus dataset splits under real "
             "and stubbed shuffles; distinct = hash of (loader geometry class, order of events); non-trivial = a loader was re-iterated after a "
             "partial or full pass, or a shuffled split ran")
@@ -54,9 +55,16 @@ class DataSim(Sim):
     # ------------------------------------------------------------------ generation
     def gen(self, rng, st):
         kn = st.knobs
+        if getattr(st, "pending", None) and len(st.Ld) >= 1 and st.pending[0].get("lid", 0) in st.Ld:
+            return st.pending.pop(0)
         if len(st.Ld) < kn["n_loaders"]:
             n = rng.choice([0, 1, 2, 3, 5, 7, 8, 10, 12, 17])
             b = rng.choice([1, 2, 3, 4, 5, 8])
+            if rng.random() < 0.004:
+                # rarely a loader of 1100-2600 batches, walked twice (pools and per-batch caches inside a loader wrap around)
+                b = rng.choice([1, 2])
+                n = b * rng.randint(1100, 1300 if b == 2 else 2600) + rng.choice([0, 1])
+                st.pending = [{"k": "epoch", "lid": len(st.Ld), "times": 2}, {"k": "getitem", "lid": len(st.Ld), "j": 0}, {"k": "getitem", "lid": len(st.Ld), "j": 3}]
             return {"k": "loader", "lid": len(st.Ld), "n": n, "b": b, "d": rng.randint(1, 3), "tf": rng.choice(["none", "none", "identity", "tag", "raise"]),
                     "raise_at": rng.randint(0, 3), "kind": rng.choice(["array", "list"]),
                     "exc": rng.choice(["SimBodyError", "SimBodyError", "IndexError", "ValueError", "KeyError", "MemoryError"]),
@@ -83,7 +91,8 @@ class DataSim(Sim):
         if r < 0.93:
             n = rng.choice([0, 1, 4, 5, 10, 11, 20]) if rng.random() < 0.997 else rng.choice([300, 40000, 70000])      # rarely beyond 2^15 / 2^16 samples
             return {"k": "split", "n": n, "test": rng.choice([0.0, 0.2, 0.25, 0.5, 1.0, 0.33]), "val": rng.choice([None, None, 0.0, 0.2, 0.5, 1.0]),
-                    "shuffle": rng.random() < 0.7, "perm": rng.choice(["real", "real", "identity", "reverse", "rotate", "swap"])}
+                    "shuffle": rng.random() < 0.7, "perm": rng.choice(["real", "real", "identity", "reverse", "rotate", "swap"]),
+                    "xkind": rng.choice(["f4", "f4", "f8", "list", "u1", "i8"]), "offset": rng.randrange(1, 120)}
         kind = rng.choice(["ints", "ints", "small_ints", "small_ints", "floats", "strings", "bools"])
         pool = {"ints": [3, 7, -1, 10, 0], "small_ints": list(range(-3, 5)), "floats": [0.5, -1.0, 2.0, 1.0, 0.0], "strings": ["cat", "dog", "bird", "ant", "Zebra", "b", "a10", "a9"],
                 "bools": [True, False]}[kind]
@@ -131,6 +140,8 @@ class DataSim(Sim):
             st.probes["transform_tagging"] += 1
         L["obj"] = st.must("C18.loader_constructor", "DataLoader(...)", data.DataLoader, Xs, ys, b, tf)
         st.Ld[ev["lid"]] = L
+        if n // b > 1024:
+            st.probes["loader_with_more_than_1024_batches"] += 1
         if n < b:
             st.probes["n_smaller_than_batch"] += 1
         elif n % b:
@@ -254,7 +265,7 @@ class DataSim(Sim):
             guard = 0
             while self._next(st, lid, f"for-loop epoch {L['epochs'] + 1}"):
                 guard += 1
-                if guard > 1000:
+                if guard > L["n"] // L["b"] + 1000:
                     st.fail("C18.batch_count", "a for-loop over the loader did not terminate", loader=lid)
             if lid not in st.its:
                 break       # the transform raised: the loop was left by the exception
@@ -304,6 +315,22 @@ class DataSim(Sim):
             st.probes["split_beyond_32768_samples"] += 1
         X = np.arange(n * 2, dtype=np.float32).reshape(n, 2)
         y = np.arange(n, dtype=np.float32) * 2 + 1        # pair rule: y == X[:,0] + 1
+        off = float(ev.get("offset", 0)) if n <= 60 else 0.0
+        if off:
+            # every dataset of the process has its own values (features of an EARLIER dataset cannot pass for this one's);
+            # datasets come as float32 / float64 / small-integer arrays or plain lists
+            X = X + off * 2
+            y = y + off * 2
+            st.probes["split_dataset_kind_" + ev.get("xkind", "f4")] += 1
+        xk = ev.get("xkind", "f4") if n <= 60 else "f4"
+        if xk == "f8":
+            X = X.astype(np.float64)
+        elif xk == "u1" and X.size and X.max() < 250:
+            X = X.astype(np.uint8)
+        elif xk == "i8":
+            X = X.astype(np.int64)
+        elif xk == "list":
+            X = [list(map(float, r)) for r in X]
         test, val, shuffle = ev["test"], ev["val"], ev["shuffle"]
         perm = ev["perm"]
         saved = np.random.shuffle
@@ -354,7 +381,7 @@ class DataSim(Sim):
             for a, b in zip(px.reshape(len(px), -1) if len(px) else [], py.reshape(-1)):
                 if float(b) != float(a[0]) + 1:
                     st.fail("C18.split_pairs", f"{name} part: features and labels are no longer paired (x={a.tolist()}, y={float(b)})")
-                seen.append(int(a[0]) // 2)
+                seen.append(int(round(float(a[0]) - 2 * off)) // 2)
         if sorted(seen) != list(range(n)):
             st.fail("C18.split_partition", f"the parts do not partition the {n} samples (each sample exactly once): {sorted(seen)[:12]}")
         if not shuffle:
